@@ -10,6 +10,7 @@ package sim
 
 import (
 	"fmt"
+	"runtime"
 	"runtime/debug"
 	"sort"
 	"strings"
@@ -46,6 +47,7 @@ type Options struct {
 	Replay   bool     // true: never draw from the PRNG (pure function of scenario+tape)
 	MaxSteps int      // abort (outcome "steplimit") after this many scheduling steps
 	KeepLog  int      // number of events kept verbatim (all are hashed)
+	TraceSteps bool   // also log every scheduling step
 }
 
 // Violation is one oracle failure.
@@ -79,6 +81,72 @@ type waiter struct {
 	ch   chan struct{}
 	site string
 	seq  uint64
+	name string // logical goroutine name (canonical ordering key)
+}
+
+// goid returns the runtime id of the calling goroutine (parsed from the
+// header line of its stack dump).
+func goid() uint64 {
+	var buf [40]byte
+	n := runtime.Stack(buf[:], false)
+	// "goroutine 123 [running]:"
+	var id uint64
+	for i := len("goroutine "); i < n; i++ {
+		c := buf[i]
+		if c < '0' || c > '9' {
+			break
+		}
+		id = id*10 + uint64(c-'0')
+	}
+	return id
+}
+
+// parentOf returns (creator function, parent goid) of the calling goroutine
+// from the "created by F in goroutine N" trailer of its full stack dump.
+func parentOf() (string, uint64) {
+	buf := make([]byte, 16<<10)
+	n := runtime.Stack(buf, false)
+	s := string(buf[:n])
+	i := strings.LastIndex(s, "created by ")
+	if i < 0 {
+		return "", 0
+	}
+	line := s[i+len("created by "):]
+	if j := strings.IndexByte(line, '\n'); j >= 0 {
+		line = line[:j]
+	}
+	fn := line
+	var pid uint64
+	if j := strings.Index(line, " in goroutine "); j >= 0 {
+		fn = line[:j]
+		for _, c := range line[j+len(" in goroutine "):] {
+			if c < '0' || c > '9' {
+				break
+			}
+			pid = pid*10 + uint64(c-'0')
+		}
+	}
+	return fn, pid
+}
+
+// nameOf returns the logical name of the calling goroutine: the task name for
+// harness tasks, otherwise parent name + creator function + ordinal. Called
+// with r.mu held.
+func (r *Run) nameOf() string {
+	id := goid()
+	if n, ok := r.names[id]; ok {
+		return n
+	}
+	fn, pid := parentOf()
+	pn, ok := r.names[pid]
+	if !ok {
+		pn = "?"
+	}
+	key := pn + ">" + fn
+	r.children[key]++
+	n := fmt.Sprintf("%s#%d", key, r.children[key])
+	r.names[id] = n
+	return n
 }
 
 // Run is the state of one simulated execution.
@@ -102,6 +170,7 @@ type Run struct {
 	gates     int
 	strategy  int
 	stickyP   int // percent
+	lastName  string
 	stallPct  int // percent chance per step (while budget lasts)
 	stallLeft int
 
@@ -118,6 +187,8 @@ type Run struct {
 	sig        string
 	invariant  func() string
 
+	names    map[uint64]string
+	children map[string]int
 	tasks    sync.WaitGroup
 	simNsVal int64
 
@@ -166,7 +237,14 @@ func (r *Run) yield(class int, site string) {
 	}
 	r.seq++
 	w.seq = r.seq
-	r.parked = append(r.parked, w)
+	w.name = r.nameOf()
+	// keep the parked list in canonical (name) order: the order in which
+	// simultaneously woken goroutines reach their gates is not reproducible
+	// (timer heap ties), the set of parked goroutines is.
+	i := sort.Search(len(r.parked), func(i int) bool { return r.parked[i].name > w.name })
+	r.parked = append(r.parked, nil)
+	copy(r.parked[i+1:], r.parked[i:])
+	r.parked[i] = w
 	r.mu.Unlock()
 	select {
 	case r.wake <- struct{}{}:
@@ -226,17 +304,25 @@ func (r *Run) pick() (int, time.Duration) {
 			switch r.strategy {
 			case 0: // uniform
 				v = uint32(r.rng.Intn(n))
-			case 1: // sticky: keep running the most recently parked goroutine
+			case 1: // sticky: keep running the goroutine released last, if it is parked again
+				v = uint32(r.rng.Intn(n))
 				if r.rng.Intn(100) < r.stickyP {
-					v = uint32(n - 1)
-				} else {
-					v = uint32(r.rng.Intn(n))
+					for i, w := range r.parked {
+						if w.name == r.lastName {
+							v = uint32(i)
+						}
+					}
 				}
-			default: // fifo with random preemptions
+			default: // round-robin over goroutine names with random preemptions
+				v = uint32(r.rng.Intn(n))
 				if r.rng.Intn(100) < r.stickyP {
 					v = 0
-				} else {
-					v = uint32(r.rng.Intn(n))
+					for i, w := range r.parked {
+						if w.name > r.lastName {
+							v = uint32(i)
+							break
+						}
+					}
 				}
 			}
 		}
@@ -351,9 +437,22 @@ func (r *Run) Go(name string, f func()) {
 				r.Violate("panic", "task %s: %v\n%s", name, p, shortStack())
 			}
 		}()
+		r.mu.Lock()
+		r.names[goid()] = name
+		r.mu.Unlock()
 		r.yield(GateTask, "start:"+name)
 		f()
 	}()
+}
+
+// Sleep lets simulated time pass for the calling task and then passes a gate,
+// so that tasks waking at the same instant continue in a scheduler-chosen
+// (reproducible) order.
+func (r *Run) Sleep(d time.Duration) {
+	if d > 0 {
+		time.Sleep(d)
+	}
+	r.yield(GateTask, "wake")
 }
 
 // WaitTasks blocks until all tasks started with Go have returned.
@@ -383,7 +482,8 @@ func Execute(t *testing.T, o Options, main func(r *Run)) (res *Result) {
 	if o.MaxSteps == 0 {
 		o.MaxSteps = 200000
 	}
-	r := &Run{opt: o, rng: NewRand(Mix(o.Seed, 0x5ced)), probes: map[string]int{}, faults: map[string]int{}, hash: 14695981039346656037}
+	r := &Run{opt: o, rng: NewRand(Mix(o.Seed, 0x5ced)), probes: map[string]int{}, faults: map[string]int{}, hash: 14695981039346656037,
+		names: map[uint64]string{}, children: map[string]int{}}
 	r.tapeIn = o.Tape
 	if prev := cur.Load(); prev != nil && !prev.finished.Load() {
 		panic("sim: nested or concurrent runs are not supported")
@@ -409,6 +509,9 @@ func Execute(t *testing.T, o Options, main func(r *Run)) (res *Result) {
 					default:
 					}
 				}()
+				r.mu.Lock()
+				r.names[goid()] = "main"
+				r.mu.Unlock()
 				main(r)
 			}()
 			r.loop()
@@ -467,7 +570,7 @@ func (r *Run) parkedSites() string {
 }
 
 func (r *Run) strategyName() string {
-	return fmt.Sprintf("s%d/p%d/stall%d/g%x", r.strategy, r.stickyP, r.stallPct, r.gates)
+	return []string{"uniform", "sticky", "roundrobin"}[r.strategy%3] + fmt.Sprintf("/stall%d", r.stallPct)
 }
 
 // configure draws the swarm knobs of the schedule. They are recorded at the
@@ -563,9 +666,19 @@ func (r *Run) loop() {
 			continue
 		}
 		w := r.parked[i]
+		if r.opt.TraceSteps && r.nlog < r.opt.KeepLog {
+			var sites []string
+			for _, x := range r.parked {
+				sites = append(sites, x.name+"@"+x.site)
+			}
+			r.log = append(r.log, fmt.Sprintf("[%d %s] pick %d of %v", r.steps, time.Since(r.start), i, sites))
+			r.nlog++
+		}
 		r.parked = append(r.parked[:i], r.parked[i+1:]...)
 		r.steps++
+		r.lastName = w.name
 		r.hashStr(w.site)
+		r.hashStr(w.name)
 		r.hashInt(uint64(i))
 		r.mu.Unlock()
 		close(w.ch)
